@@ -6,6 +6,8 @@ use crate::props::asan::AsanEngine;
 use crate::props::bfs::BfsEngine;
 use crate::props::cycles::CyclesEngine;
 use crate::props::digraph::{DiEngine, LengthSweep};
+use crate::props::sweeps::SweepEngine;
+use crate::props::valsweeps::ValSweep;
 use crate::props::gc::GcEngine;
 use crate::props::multi::MultiEngine;
 use crate::props::prefixes::PrefixEngine;
@@ -46,33 +48,33 @@ pub fn meta(prop: &str) -> Option<Meta> {
     Some(match prop {
         "C01" => Meta {
             level: "exploration",
-            rule: "histories = vec(op seed, 0..=80) resolved against the reference model (construction, no rejection) + drain epilogue; oracle = invariant over the call history (removals only at a first read; removed vertices bind-linked, bound, not unread). Non-trivial: some call removed a vertex while another present vertex had to survive. Distinct = distinct hash of (N, capacity, concrete call list).",
+            rule: "histories = vec(op seed, 0..=80) resolved against the reference model (construction, no rejection) + drain epilogue; oracle = invariant over the call history (removals only at a first read; removed vertices bind-linked, bound, not unread). Non-trivial: some call removed a vertex while another present vertex had to survive. Distinct = distinct hash of (N, capacity, concrete call list). Sub-campaign dimension-sweeps (bounded-exhaustive): one scalar dimension at a time is swept completely on a fixed small scenario and judged by the same oracle: vertex capacity 1..=300 and around 512..65536 (thorough: ..1100), vertex id 0..=1100 (thorough 4200) in a 4201-slot store, alpha index 0..=300 and +-1 around every power of two and ten (thorough: ..70000), every byte value at every offset 0..11 of a datum, datum length 0..=2100 (thorough 9000), groups x members 0..=14 x 2..=16, number of edges 0..=N for N in {1,2,3,4,8,15,16,17,32}, the label character (every scalar value up to U+02FF, then every 997th / 61st).",
             assumptions: gc_assume,
-            subs: vec![Sub { id: "gcmodel", quick: 64_000, thorough: 3_200_000 }, Sub { id: "gcmodel-fast", quick: 0, thorough: 800_000 }],
+            subs: vec![Sub { id: "gcmodel", quick: 64_000, thorough: 3_200_000 }, Sub { id: "gcmodel-fast", quick: 0, thorough: 800_000 }, Sub { id: "dimension-sweeps", quick: 8, thorough: 16 }],
         },
         "C02" => Meta {
             level: "exploration",
-            rule: "same generator as C01 (profiles gc-orders, overwrite, readd, limit-edge); oracle = keys() equals the alive set of the reference model after every call, no in-limit panic of add/bind/put/data, through the drain epilogue (every free group slot probed simultaneously). Non-trivial: a group died and the history has put-before-bind carried into a group, an overwrite of an unread datum, a put after a read, a re-add of a grouped vertex, a group with >=2 unread data, or >=2 groups died.",
+            rule: "same generator as C01 (profiles gc-orders, overwrite, readd, limit-edge); oracle = keys() equals the alive set of the reference model after every call, no in-limit panic of add/bind/put/data, through the drain epilogue (every free group slot probed simultaneously). Non-trivial: a group died and the history has put-before-bind carried into a group, an overwrite of an unread datum, a put after a read, a re-add of a grouped vertex, a group with >=2 unread data, or >=2 groups died. Sub-campaign dimension-sweeps (bounded-exhaustive): one scalar dimension at a time is swept completely on a fixed small scenario and judged by the same oracle: vertex capacity 1..=300 and around 512..65536 (thorough: ..1100), vertex id 0..=1100 (thorough 4200) in a 4201-slot store, alpha index 0..=300 and +-1 around every power of two and ten (thorough: ..70000), every byte value at every offset 0..11 of a datum, datum length 0..=2100 (thorough 9000), groups x members 0..=14 x 2..=16, number of edges 0..=N for N in {1,2,3,4,8,15,16,17,32}, the label character (every scalar value up to U+02FF, then every 997th / 61st).",
             assumptions: gc_assume,
-            subs: vec![Sub { id: "gcmodel", quick: 64_000, thorough: 3_200_000 }, Sub { id: "bfs", quick: 8, thorough: 16 }, Sub { id: "gcmodel-fast", quick: 0, thorough: 800_000 }],
+            subs: vec![Sub { id: "gcmodel", quick: 64_000, thorough: 3_200_000 }, Sub { id: "bfs", quick: 8, thorough: 16 }, Sub { id: "gcmodel-fast", quick: 0, thorough: 800_000 }, Sub { id: "dimension-sweeps", quick: 8, thorough: 16 }],
         },
         "C03" => Meta {
             level: "exploration",
-            rule: "generator profile overwrite-heavy; oracle = after every call, for every present vertex kids() as a set equals the model's last-bind map (one entry per label), kid() agrees for every bound label and for 6 probe labels, v_print's data marker agrees, and every data() result equals the most recent put. Non-trivial: a label was rebound or a datum overwritten, and a group died while observed vertices survived.",
+            rule: "generator profile overwrite-heavy; oracle = after every call, for every present vertex kids() as a set equals the model's last-bind map (one entry per label), kid() agrees for every bound label and for 6 probe labels, v_print's data marker agrees, and every data() result equals the most recent put. Non-trivial: a label was rebound or a datum overwritten, and a group died while observed vertices survived. Sub-campaign dimension-sweeps (bounded-exhaustive): one scalar dimension at a time is swept completely on a fixed small scenario and judged by the same oracle: vertex capacity 1..=300 and around 512..65536 (thorough: ..1100), vertex id 0..=1100 (thorough 4200) in a 4201-slot store, alpha index 0..=300 and +-1 around every power of two and ten (thorough: ..70000), every byte value at every offset 0..11 of a datum, datum length 0..=2100 (thorough 9000), groups x members 0..=14 x 2..=16, number of edges 0..=N for N in {1,2,3,4,8,15,16,17,32}, the label character (every scalar value up to U+02FF, then every 997th / 61st).",
             assumptions: gc_assume,
-            subs: vec![Sub { id: "gcmodel", quick: 48_000, thorough: 3_200_000 }, Sub { id: "gcmodel-fast", quick: 0, thorough: 800_000 }],
+            subs: vec![Sub { id: "gcmodel", quick: 48_000, thorough: 3_200_000 }, Sub { id: "gcmodel-fast", quick: 0, thorough: 800_000 }, Sub { id: "dimension-sweeps", quick: 8, thorough: 16 }],
         },
         "C04" => Meta {
             level: "exploration",
-            rule: "generator profile readd-heavy; oracle = (i) add on a model-absent id yields a present vertex with no kids (kid() is asked for every label the collected vertex had — the model keeps a graveyard — before and after the add, and for probe labels), no data marker, no data on later reads, others unchanged; (ii) add on a present id leaves the complete observation unchanged and deleting all such adds from the history leaves the whole observation trace (to the end of the epilogue) unchanged; (iii) add never panics. Non-trivial: the history re-adds a grouped vertex or a recycled id with stale content, and a group died.",
+            rule: "generator profile readd-heavy; oracle = (i) add on a model-absent id yields a present vertex with no kids (kid() is asked for every label the collected vertex had — the model keeps a graveyard — before and after the add, and for probe labels), no data marker, no data on later reads, others unchanged; (ii) add on a present id leaves the complete observation unchanged and deleting all such adds from the history leaves the whole observation trace (to the end of the epilogue) unchanged; (iii) add never panics. Non-trivial: the history re-adds a grouped vertex or a recycled id with stale content, and a group died. Sub-campaign dimension-sweeps (bounded-exhaustive): one scalar dimension at a time is swept completely on a fixed small scenario and judged by the same oracle: vertex capacity 1..=300 and around 512..65536 (thorough: ..1100), vertex id 0..=1100 (thorough 4200) in a 4201-slot store, alpha index 0..=300 and +-1 around every power of two and ten (thorough: ..70000), every byte value at every offset 0..11 of a datum, datum length 0..=2100 (thorough 9000), groups x members 0..=14 x 2..=16, number of edges 0..=N for N in {1,2,3,4,8,15,16,17,32}, the label character (every scalar value up to U+02FF, then every 997th / 61st).",
             assumptions: gc_assume,
-            subs: vec![Sub { id: "gcmodel", quick: 48_000, thorough: 3_200_000 }, Sub { id: "gcmodel-fast", quick: 0, thorough: 800_000 }],
+            subs: vec![Sub { id: "gcmodel", quick: 48_000, thorough: 3_200_000 }, Sub { id: "gcmodel-fast", quick: 0, thorough: 800_000 }, Sub { id: "dimension-sweeps", quick: 8, thorough: 16 }],
         },
         "C05" => Meta {
             level: "exploration",
-            rule: "generator profile allocator-heavy (next_id with/without add, adds ahead of/behind the allocator, collections, clone, merge, script variables); oracle = every returned id is below the capacity, absent at that moment and never returned before in this lineage; ids created by merge/script were never returned before. next_id is only generated while an absent id at or above the allocator position remains. Non-trivial: >=2 next_id calls plus a collection, clone, merge or explicit add.",
+            rule: "generator profile allocator-heavy (next_id with/without add, adds ahead of/behind the allocator, collections, clone, merge, script variables); oracle = every returned id is below the capacity, absent at that moment and never returned before in this lineage; ids created by merge/script were never returned before. next_id is only generated while an absent id at or above the allocator position remains. Non-trivial: >=2 next_id calls plus a collection, clone, merge or explicit add. Sub-campaign dimension-sweeps (bounded-exhaustive): one scalar dimension at a time is swept completely on a fixed small scenario and judged by the same oracle: vertex capacity 1..=300 and around 512..65536 (thorough: ..1100), vertex id 0..=1100 (thorough 4200) in a 4201-slot store, alpha index 0..=300 and +-1 around every power of two and ten (thorough: ..70000), every byte value at every offset 0..11 of a datum, datum length 0..=2100 (thorough 9000), groups x members 0..=14 x 2..=16, number of edges 0..=N for N in {1,2,3,4,8,15,16,17,32}, the label character (every scalar value up to U+02FF, then every 997th / 61st).",
             assumptions: gc_assume,
-            subs: vec![Sub { id: "gcmodel", quick: 64_000, thorough: 3_200_000 }, Sub { id: "gcmodel-fast", quick: 0, thorough: 800_000 }],
+            subs: vec![Sub { id: "gcmodel", quick: 64_000, thorough: 3_200_000 }, Sub { id: "gcmodel-fast", quick: 0, thorough: 800_000 }, Sub { id: "dimension-sweeps", quick: 8, thorough: 16 }],
         },
         "C06" => Meta {
             level: "exploration",
@@ -82,27 +84,27 @@ pub fn meta(prop: &str) -> Option<Meta> {
         },
         "C07" => Meta {
             level: "exploration",
-            rule: "every call runs in a worker built with AddressSanitizer (quick; thorough adds MemorySanitizer and a libFuzzer+ASan campaign) and debug assertions; a sanitizer report aborts the worker and is reported with the in-flight case. Two generators over N in {1,2,4,16}, capacity 1..40: (1) an in-domain generated history (profiles limit-edge, gc-orders, forest, queries; no call may panic), extended in-domain until a limit is reached exactly, then ONE call that exceeds exactly one limit — id at or above the capacity in add/bind/put/data/kid/kids/slice/inspect/v_print/merge, an (N+1)-th label, a 17th group member — which must panic; (2) anything goes: up to 120 raw calls with ids up to capacity+2, equal/absent bind endpoints, 15th group, clone, slice, slice_some, merge of non-trees (the graph with itself, cyclic right graphs), save+load, exports, inspect, scripts, every call under catch_unwind and the same graph used on after a panic; no expectation but the sanitizer's silence. One anything-goes sequence in 8 starts with the group-exhaustion scenario on a store of 64..600 slots (14 groups on low ids, then 4..23 more pairs of ungrouped vertices bound at the largest ids, then clone, Debug, save+load, slice, reads); a quarter of the raw calls exercise the value types (Hex::from_str on 0..47 hex digits with no / canonical / sparse dashes, Label::from_str on arbitrary characters, concat, tail, ranges, byte_at). Non-trivial: (1) an overrun call was executed after reaching its limit exactly; (2) at least one call panicked and the sequence went on.",
+            rule: "every call runs in a worker built with AddressSanitizer (quick; thorough adds MemorySanitizer and a libFuzzer+ASan campaign) and debug assertions; a sanitizer report aborts the worker and is reported with the in-flight case. Two generators over N in {1,2,4,16}, capacity 1..40: (1) an in-domain generated history (profiles limit-edge, gc-orders, forest, queries; no call may panic), extended in-domain until a limit is reached exactly, then ONE call that exceeds exactly one limit — id at or above the capacity in add/bind/put/data/kid/kids/slice/inspect/v_print/merge, an (N+1)-th label, a 17th group member — which must panic; (2) anything goes: up to 120 raw calls with ids up to capacity+2, equal/absent bind endpoints, 15th group, clone, slice, slice_some, merge of non-trees (the graph with itself, cyclic right graphs), save+load, exports, inspect, scripts, every call under catch_unwind and the same graph used on after a panic; no expectation but the sanitizer's silence. One anything-goes sequence in 8 starts with the group-exhaustion scenario on a store of 64..600 slots (14 groups on low ids, then 4..23 more pairs of ungrouped vertices bound at the largest ids, then clone, Debug, save+load, slice, reads); a quarter of the raw calls exercise the value types (Hex::from_str on 0..47 hex digits with no / canonical / sparse dashes, Label::from_str on arbitrary characters, concat, tail, ranges, byte_at). Non-trivial: (1) an overrun call was executed after reaching its limit exactly; (2) at least one call panicked and the sequence went on. Sub-campaign dimension-sweeps (bounded-exhaustive): one scalar dimension at a time is swept completely on a fixed small scenario and judged by the same oracle: vertex capacity 1..=300 and around 512..65536 (thorough: ..1100), vertex id 0..=1100 (thorough 4200) in a 4201-slot store, alpha index 0..=300 and +-1 around every power of two and ten (thorough: ..70000), every byte value at every offset 0..11 of a datum, datum length 0..=2100 (thorough 9000), groups x members 0..=14 x 2..=16, number of edges 0..=N for N in {1,2,3,4,8,15,16,17,32}, the label character (every scalar value up to U+02FF, then every 997th / 61st).",
             assumptions: &["claimed for builds with debug assertions (the crate's own bounds checks)", "AddressSanitizer does not report uninitialised reads: the thorough tier adds a MemorySanitizer run", "leak detection is off (emap never drops its elements by design)"],
-            subs: vec![Sub { id: "asan-seq", quick: 24_000, thorough: 240_000 }, Sub { id: "msan-seq", quick: 0, thorough: 32_000 }],
+            subs: vec![Sub { id: "asan-seq", quick: 24_000, thorough: 240_000 }, Sub { id: "msan-seq", quick: 0, thorough: 32_000 }, Sub { id: "dimension-sweeps", quick: 8, thorough: 16 }],
         },
         "C08" => Meta {
             level: "exploration",
-            rule: "history H (<=60 generated calls, all profiles, every N, capacities 2..256) builds g; g' = load(save(g)) through a real file; (i) the complete observation (keys, len, kids in order, v_print, inspect of every vertex, Debug, to_xml, to_dot) of g and g' must be equal; (ii) a generated continuation (<=40 calls; allocator-dependent calls only when H never used the allocator, so that the one permitted difference cannot show) plus the drain epilogue is applied to both and every result, key set and observation must stay equal; (iii) hook snapshots are compared (modulo allocator position, absent slots) only as a recorded trigger. Sub-campaign datum-length-sweep (bounded-exhaustive): a two-vertex graph whose datum has EVERY length 0..=9000 (thorough: 0..=40000) and every length within ±24 of 64 KiB, 128 KiB, 256 KiB and 1 MiB is saved, reloaded and compared (complete observation, datum bytes). Non-trivial: at save time a live group holds an unread datum, a heap-encoded datum (>8 bytes) exists, and the continuation/epilogue collects a group.",
+            rule: "history H (<=60 generated calls, all profiles, every N, capacities 2..256) builds g; g' = load(save(g)) through a real file; (i) the complete observation (keys, len, kids in order, v_print, inspect of every vertex, Debug, to_xml, to_dot) of g and g' must be equal; (ii) a generated continuation (<=40 calls; allocator-dependent calls only when H never used the allocator, so that the one permitted difference cannot show) plus the drain epilogue is applied to both and every result, key set and observation must stay equal; (iii) hook snapshots are compared (modulo allocator position, absent slots) only as a recorded trigger. Sub-campaign datum-length-sweep (bounded-exhaustive): a two-vertex graph whose datum has EVERY length 0..=9000 (thorough: 0..=40000) and every length within ±24 of 64 KiB, 128 KiB, 256 KiB and 1 MiB is saved, reloaded and compared (complete observation, datum bytes). Non-trivial: at save time a live group holds an unread datum, a heap-encoded datum (>8 bytes) exists, and the continuation/epilogue collects a group. Sub-campaign dimension-sweeps (bounded-exhaustive): one scalar dimension at a time is swept completely on a fixed small scenario and judged by the same oracle: vertex capacity 1..=300 and around 512..65536 (thorough: ..1100), vertex id 0..=1100 (thorough 4200) in a 4201-slot store, alpha index 0..=300 and +-1 around every power of two and ten (thorough: ..70000), every byte value at every offset 0..11 of a datum, datum length 0..=2100 (thorough 9000), groups x members 0..=14 x 2..=16, number of edges 0..=N for N in {1,2,3,4,8,15,16,17,32}, the label character (every scalar value up to U+02FF, then every 997th / 61st).",
             assumptions: &["differential: the implementation is compared with itself across save+load", "the generator is guided by the reference model so that calls stay inside preconditions and limits"],
-            subs: vec![Sub { id: "twin", quick: 32_000, thorough: 1_600_000 }, Sub { id: "datum-length-sweep", quick: 8, thorough: 16 }],
+            subs: vec![Sub { id: "twin", quick: 32_000, thorough: 1_600_000 }, Sub { id: "datum-length-sweep", quick: 8, thorough: 16 }, Sub { id: "dimension-sweeps", quick: 8, thorough: 16 }],
         },
         "C09" => Meta {
             level: "fault_enumeration",
-            rule: "graphs from generated histories (<=50 calls; profiles overwrite-heavy, gc-orders, limit-edge; every N; capacities 2..256) are saved through save(); the complete image must load back (control); then for EVERY cut point 0 <= k < size (thorough: always; quick: every k for images <= 4096 bytes, otherwise the first and last 600 positions plus 1024 evenly spread ones) the file is truncated to k bytes and load() must return Err: never Ok, never a panic. One image in ~100 additionally holds a 1.3 MB datum (image > 1 MiB); images above 256 KiB get the sampled cut points (first/last 600, 1024 evenly spread, and k-1, k, k+1 around every power of two from 4096) in both tiers. Non-trivial image: holds a heap-encoded datum (>8 bytes) and a vertex with >=2 edges. Distinct = distinct (image, k) pairs of non-trivial images.",
+            rule: "graphs from generated histories (<=50 calls; profiles overwrite-heavy, gc-orders, limit-edge; every N; capacities 2..256) are saved through save(); the complete image must load back (control); then for EVERY cut point 0 <= k < size (thorough: always; quick: every k for images <= 4096 bytes, otherwise the first and last 600 positions plus 1024 evenly spread ones) the file is truncated to k bytes and load() must return Err: never Ok, never a panic. One image in ~100 additionally holds a 1.3 MB datum (image > 1 MiB); images above 256 KiB get the sampled cut points (first/last 600, 1024 evenly spread, and k-1, k, k+1 around every power of two from 4096) in both tiers. Non-trivial image: holds a heap-encoded datum (>8 bytes) and a vertex with >=2 edges. Distinct = distinct (image, k) pairs of non-trivial images. Sub-campaign dimension-sweeps (bounded-exhaustive): one scalar dimension at a time is swept completely on a fixed small scenario and judged by the same oracle: vertex capacity 1..=300 and around 512..65536 (thorough: ..1100), vertex id 0..=1100 (thorough 4200) in a 4201-slot store, alpha index 0..=300 and +-1 around every power of two and ten (thorough: ..70000), every byte value at every offset 0..11 of a datum, datum length 0..=2100 (thorough 9000), groups x members 0..=14 x 2..=16, number of edges 0..=N for N in {1,2,3,4,8,15,16,17,32}, the label character (every scalar value up to U+02FF, then every 997th / 61st).",
             assumptions: &["a crash during the non-atomic write leaves a prefix of the image (no torn or reordered blocks)", "load() is called with the N the image was saved with"],
-            subs: vec![Sub { id: "prefixes", quick: 800, thorough: 16_000 }],
+            subs: vec![Sub { id: "prefixes", quick: 800, thorough: 16_000 }, Sub { id: "dimension-sweeps", quick: 8, thorough: 16 }],
         },
         "C10" => Meta {
             level: "exploration",
-            rule: "as C08 with g' = g.clone(), or (half of the cases) g' made by clone_from(): into a bigger store that has vertices of its own, also above g's capacity, or into an older smaller-history store; the continuation always may contain next_id/merge/script variables (the allocator position must be copied). Half of the cases check independence instead: the continuation and the epilogue are applied to one copy only (either direction); the other copy's complete observation must be unchanged and it must then drain exactly as the reference model at the split point says (data bytes, collections). Non-trivial: live group with unread datum and heap datum at clone time, a group dies afterwards, and (same-continuation mode) the continuation calls the allocator.",
+            rule: "as C08 with g' = g.clone(), or (half of the cases) g' made by clone_from(): into a bigger store that has vertices of its own, also above g's capacity, or into an older smaller-history store; the continuation always may contain next_id/merge/script variables (the allocator position must be copied). Half of the cases check independence instead: the continuation and the epilogue are applied to one copy only (either direction); the other copy's complete observation must be unchanged and it must then drain exactly as the reference model at the split point says (data bytes, collections). Non-trivial: live group with unread datum and heap datum at clone time, a group dies afterwards, and (same-continuation mode) the continuation calls the allocator. Sub-campaign dimension-sweeps (bounded-exhaustive): one scalar dimension at a time is swept completely on a fixed small scenario and judged by the same oracle: vertex capacity 1..=300 and around 512..65536 (thorough: ..1100), vertex id 0..=1100 (thorough 4200) in a 4201-slot store, alpha index 0..=300 and +-1 around every power of two and ten (thorough: ..70000), every byte value at every offset 0..11 of a datum, datum length 0..=2100 (thorough 9000), groups x members 0..=14 x 2..=16, number of edges 0..=N for N in {1,2,3,4,8,15,16,17,32}, the label character (every scalar value up to U+02FF, then every 997th / 61st).",
             assumptions: &["differential: original vs clone", "the generator is guided by the reference model"],
-            subs: vec![Sub { id: "twin", quick: 32_000, thorough: 1_600_000 }],
+            subs: vec![Sub { id: "twin", quick: 32_000, thorough: 1_600_000 }, Sub { id: "dimension-sweeps", quick: 8, thorough: 16 }],
         },
         "C11" => Meta {
             level: "exploration",
@@ -118,51 +120,51 @@ pub fn meta(prop: &str) -> Option<Meta> {
         },
         "C13" => Meta {
             level: "exploration",
-            rule: "graphs: (60%) a direct digraph builder over 1..14 generated ids with up to 40 generated edges (cycles, self-reaching loops through other vertices, shared targets, parallel labels to one target up to N), data placed before/after binding; one builder graph in 16 is a fan (N from {1,2,3,8,15,16,17,32}: a hub with N or N-1 labels onto 2..5 kids plus generated edges); (40%) graphs left behind by generated histories with collections. For EVERY present start vertex whose reachable part is present and has <=14 vertices: slice(v) and slice_some(v,p) with p a generated table over (from,to,label) accepting all / half / none. Oracle: independent BFS on the reference model: Ok, no panic; present vertices of the slice = reachable set under p, under their original ids; accepted edges between kept vertices ⊆ kids(slice) ⊆ edges of the source, no duplicates, no edge to a dropped vertex; the complete observation of the source is unchanged. Termination: a call that recurses without bound kills the worker (reported with the in-flight case); a case running >120 s is reported as non-termination. Distinct non-trivial = distinct (graph, start, predicate) whose reachable part has a cycle or shared target and, for slice_some, where p rejects an edge between kept vertices.",
+            rule: "graphs: (60%) a direct digraph builder over 1..14 generated ids with up to 40 generated edges (cycles, self-reaching loops through other vertices, shared targets, parallel labels to one target up to N), data placed before/after binding; one builder graph in 16 is a fan (N from {1,2,3,8,15,16,17,32}: a hub with N or N-1 labels onto 2..5 kids plus generated edges); (40%) graphs left behind by generated histories with collections. For EVERY present start vertex whose reachable part is present and has <=14 vertices: slice(v) and slice_some(v,p) with p a generated table over (from,to,label) accepting all / half / none. Oracle: independent BFS on the reference model: Ok, no panic; present vertices of the slice = reachable set under p, under their original ids; accepted edges between kept vertices ⊆ kids(slice) ⊆ edges of the source, no duplicates, no edge to a dropped vertex; the complete observation of the source is unchanged. Termination: a call that recurses without bound kills the worker (reported with the in-flight case); a case running >120 s is reported as non-termination. Distinct non-trivial = distinct (graph, start, predicate) whose reachable part has a cycle or shared target and, for slice_some, where p rejects an edge between kept vertices. Sub-campaign dimension-sweeps (bounded-exhaustive): one scalar dimension at a time is swept completely on a fixed small scenario and judged by the same oracle: vertex capacity 1..=300 and around 512..65536 (thorough: ..1100), vertex id 0..=1100 (thorough 4200) in a 4201-slot store, alpha index 0..=300 and +-1 around every power of two and ten (thorough: ..70000), every byte value at every offset 0..11 of a datum, datum length 0..=2100 (thorough 9000), groups x members 0..=14 x 2..=16, number of edges 0..=N for N in {1,2,3,4,8,15,16,17,32}, the label character (every scalar value up to U+02FF, then every 997th / 61st).",
             assumptions: &["reference model edges; rejected edges between kept vertices are allowed in the slice (the statement does not forbid them)", "watchdog margin: normal cost is microseconds"],
-            subs: vec![Sub { id: "digraph", quick: 40_000, thorough: 2_400_000 }],
+            subs: vec![Sub { id: "digraph", quick: 40_000, thorough: 2_400_000 }, Sub { id: "dimension-sweeps", quick: 8, thorough: 16 }],
         },
         "C14" => Meta {
             level: "exploration",
-            rule: "programs of <=25 ADD/BIND/PUT commands over literal ids and $variables (names of 1..14 characters, families with a common 8-character prefix) are generated from model-guided histories — half of them on a graph that already has a history of <=40 generated calls (collections, recycled ids, one in 4 from the dangling-edge-then-re-add template; one BIND in 4 repeats an existing edge) — and rendered with generated legal formatting (blanks/tabs/newlines around tokens, only blanks before '(', optional ν prefixes, newline-terminated # comments between commands incl. comments containing ';' and parentheses, optional final ';', empty commands, hex in upper/lower case separated by '-', blank or nothing). Well-formed text: graph A = deploy_to(text) and graph B = the direct calls (each variable bound to one next_id() at its first textual use) must have the returned count = number of commands, equal complete observations, and identical traces through the drain epilogue. Half of the cases carry one corruption (character delete/insert/replace, or a structured fault: unknown/lower-case opcode, missing parenthesis, missing argument, non-numeric or overflowing id, odd or non-hex data, label longer than 8, bad α index, missing ';'); an independent strict parser of the documented grammar classifies the corrupted text: well-formed => same equivalence oracle (if in-domain), malformed at command k => Err, no panic, and A equals the first k commands applied directly, unspecified => skipped and counted. Non-trivial: >=3 commands with a variable used twice, a comment and a ν prefix; or a text classified malformed.",
+            rule: "programs of <=25 ADD/BIND/PUT commands over literal ids and $variables (names of 1..14 characters, families with a common 8-character prefix) are generated from model-guided histories — half of them on a graph that already has a history of <=40 generated calls (collections, recycled ids, one in 4 from the dangling-edge-then-re-add template; one BIND in 4 repeats an existing edge) — and rendered with generated legal formatting (blanks/tabs/newlines around tokens, only blanks before '(', optional ν prefixes, newline-terminated # comments between commands incl. comments containing ';' and parentheses, optional final ';', empty commands, hex in upper/lower case separated by '-', blank or nothing). Well-formed text: graph A = deploy_to(text) and graph B = the direct calls (each variable bound to one next_id() at its first textual use) must have the returned count = number of commands, equal complete observations, and identical traces through the drain epilogue. Half of the cases carry one corruption (character delete/insert/replace, or a structured fault: unknown/lower-case opcode, missing parenthesis, missing argument, non-numeric or overflowing id, odd or non-hex data, label longer than 8, bad α index, missing ';'); an independent strict parser of the documented grammar classifies the corrupted text: well-formed => same equivalence oracle (if in-domain), malformed at command k => Err, no panic, and A equals the first k commands applied directly, unspecified => skipped and counted. Non-trivial: >=3 commands with a variable used twice, a comment and a ν prefix; or a text classified malformed. Sub-campaign dimension-sweeps (bounded-exhaustive): one scalar dimension at a time is swept completely on a fixed small scenario and judged by the same oracle: vertex capacity 1..=300 and around 512..65536 (thorough: ..1100), vertex id 0..=1100 (thorough 4200) in a 4201-slot store, alpha index 0..=300 and +-1 around every power of two and ten (thorough: ..70000), every byte value at every offset 0..11 of a datum, datum length 0..=2100 (thorough 9000), groups x members 0..=14 x 2..=16, number of edges 0..=N for N in {1,2,3,4,8,15,16,17,32}, the label character (every scalar value up to U+02FF, then every 997th / 61st).",
             assumptions: &["the strict parser in harness/src/props/script.rs is a faithful reading of the documented grammar; everything it is unsure about is classified unspecified and not judged", "differential: deploy_to vs direct calls"],
-            subs: vec![Sub { id: "scriptgen", quick: 48_000, thorough: 2_400_000 }],
+            subs: vec![Sub { id: "scriptgen", quick: 48_000, thorough: 2_400_000 }, Sub { id: "dimension-sweeps", quick: 8, thorough: 16 }],
         },
         "C15" => Meta {
             level: "exploration",
-            rule: "per case: generated 12-byte content, 8-byte padding, 4 random + 10 special i64, 4 random + 12 special f64 bit patterns; for every length 0..=12 and every representation (canonical, heap Vector, inline array with non-zero padding) EVERY index i in {0..=14, usize::MAX-1, usize::MAX} for [i], byte_at, tail, [i..], [..i], [..=i], IndexMut and every pair (i,j) of those for [i..j], [i..=j] is compared with the same operation on the byte slice (equal result or both panic); plus single-bit inequality (every bit of every length 1..=9 flipped, in every pair of representations: the two values must differ), inclusive ranges advanced with next() until exhausted compared with the same range value on the byte slice, plus bytes/len/to_vec/print/Display/Debug/[..]/eq across representations/from_str(print)/to_i64/to_f64/to_utf8/to_bool and the From conversions. In addition three long byte strings per case (lengths from {13..64, 200, 255, 256, 257, 1000, 65535, 65536, 65537} plus 0..6) in canonical and heap form are checked for the whole-value accessors and at sampled indices/ranges: 0, 1, 7, 8, 9, the middle, len-1, len, len+1, 255, 256, 257, 65535, 65536, usize::MAX and six generated positions, in both orders. The index space is enumerated completely per content. Distinct non-trivial = distinct (bytes, representation, padding) triples whose whole index space was checked.",
+            rule: "per case: generated 12-byte content, 8-byte padding, 4 random + 10 special i64, 4 random + 12 special f64 bit patterns; for every length 0..=12 and every representation (canonical, heap Vector, inline array with non-zero padding) EVERY index i in {0..=14, usize::MAX-1, usize::MAX} for [i], byte_at, tail, [i..], [..i], [..=i], IndexMut and every pair (i,j) of those for [i..j], [i..=j] is compared with the same operation on the byte slice (equal result or both panic); plus single-bit inequality (every bit of every length 1..=9 flipped, in every pair of representations: the two values must differ), inclusive ranges advanced with next() until exhausted compared with the same range value on the byte slice, plus bytes/len/to_vec/print/Display/Debug/[..]/eq across representations/from_str(print)/to_i64/to_f64/to_utf8/to_bool and the From conversions. In addition three long byte strings per case (lengths from {13..64, 200, 255, 256, 257, 1000, 65535, 65536, 65537} plus 0..6) in canonical and heap form are checked for the whole-value accessors and at sampled indices/ranges: 0, 1, 7, 8, 9, the middle, len-1, len, len+1, 255, 256, 257, 65535, 65536, usize::MAX and six generated positions, in both orders. The index space is enumerated completely per content. Distinct non-trivial = distinct (bytes, representation, padding) triples whose whole index space was checked. Sub-campaign value-sweeps (bounded-exhaustive): EVERY length 0..=2100 (thorough 9000) and +-9 around 16 Ki..128 Ki in every representation, all accessors, indices/ranges over {0,1,7,8,9,len/2,len-1,len,len+1,len+9,usize::MAX-1,usize::MAX} squared.",
             assumptions: &["the oracle is Rust's own slice indexing on the same bytes", "lengths 0..=12, indices 0..=14 and the two largest usize values"],
-            subs: vec![Sub { id: "hexenum", quick: 240, thorough: 9_600 }],
+            subs: vec![Sub { id: "hexenum", quick: 240, thorough: 9_600 }, Sub { id: "value-sweeps", quick: 8, thorough: 16 }],
         },
         "C16" => Meta {
             level: "exploration",
-            rule: "per case: two generated 12-byte contents and paddings; EVERY (len a, len b) in 0..=12 x 0..=12 and every pair of representations (canonical, heap, inline with non-zero padding): a.concat(b).bytes() == a.bytes() ++ b.bytes(), operands unchanged (bytes and representation). The same enumeration is repeated with all-zero and all-0xFF contents on either side, and four pairs of long operands per case (lengths from {0, 1, 7, 8, 9, 13, 16, 31, 255, 256, 257, 1000, 4096, 65535, 65536, 65537} plus 0..2) in all representation pairs. The length space is enumerated completely per content. Distinct non-trivial = distinct (a bytes, b bytes, representations) with a length of 8 or a total above 8. Failures with the exact signature of the open known finding are counted and the search goes on.",
+            rule: "per case: two generated 12-byte contents and paddings; EVERY (len a, len b) in 0..=12 x 0..=12 and every pair of representations (canonical, heap, inline with non-zero padding): a.concat(b).bytes() == a.bytes() ++ b.bytes(), operands unchanged (bytes and representation). The same enumeration is repeated with all-zero and all-0xFF contents on either side, and four pairs of long operands per case (lengths from {0, 1, 7, 8, 9, 13, 16, 31, 255, 256, 257, 1000, 4096, 65535, 65536, 65537} plus 0..2) in all representation pairs. The length space is enumerated completely per content. Distinct non-trivial = distinct (a bytes, b bytes, representations) with a length of 8 or a total above 8. Failures with the exact signature of the open known finding are counted and the search goes on. Sub-campaign value-sweeps (bounded-exhaustive): EVERY pair of operand lengths in 0..=96 x 0..=96 (thorough 200 x 200), every (short 0..=16, long up to 4200 / 20000) pair in both orders, and +-9 around 64 Ki and 128 Ki, in every pair of representations.",
             assumptions: &["the oracle is Vec concatenation", "lengths 0..=12"],
-            subs: vec![Sub { id: "concatenum", quick: 800, thorough: 32_000 }],
+            subs: vec![Sub { id: "concatenum", quick: 800, thorough: 32_000 }, Sub { id: "value-sweeps", quick: 8, thorough: 16 }],
         },
         "C17" => Meta {
             level: "exploration",
-            rule: "sub-campaign labels-enum: EVERY text of length 0..=4 (quick) / 0..=5 (thorough) over the 14-symbol alphabet {a Z 7 + - _ α ρ φ 𝜑 0 1 9 space} is classified by an independent reading of the documented grammar into in-domain (must parse, print back identically, be injective, and equal the directly constructed value), must-be-rejected (more than 8 characters without α prefix, malformed or overflowing index) or unspecified (empty, contains a space, +index, leading zeros, α-index text longer than 8: skipped and counted); sub-campaign labels: generated texts of length 5..=10 over the alphabet, arbitrary unicode texts, α+1..22 digits, homogeneous texts of every length 1..=9 per UTF-8 width (a, ρ, 中, 𝜑) and mixtures at the 8-character boundary, α followed by the indices around 2^32 and usize::MAX and 10^k-2..=10^k+2, 2^k-2..=2^k+2 for every k; every canonical value (Greek(c), Alpha(n), Str of 2..=8) met is printed, parsed back, compared, and looked up in a graph (bind under the constructed label, kid under the parsed one). Distinct non-trivial = distinct judged (not unspecified) texts.",
+            rule: "sub-campaign labels-enum: EVERY text of length 0..=4 (quick) / 0..=5 (thorough) over the 14-symbol alphabet {a Z 7 + - _ α ρ φ 𝜑 0 1 9 space} is classified by an independent reading of the documented grammar into in-domain (must parse, print back identically, be injective, and equal the directly constructed value), must-be-rejected (more than 8 characters without α prefix, malformed or overflowing index) or unspecified (empty, contains a space, +index, leading zeros, α-index text longer than 8: skipped and counted); sub-campaign labels: generated texts of length 5..=10 over the alphabet, arbitrary unicode texts, α+1..22 digits, homogeneous texts of every length 1..=9 per UTF-8 width (a, ρ, 中, 𝜑) and mixtures at the 8-character boundary, α followed by the indices around 2^32 and usize::MAX and 10^k-2..=10^k+2, 2^k-2..=2^k+2 for every k; every canonical value (Greek(c), Alpha(n), Str of 2..=8) met is printed, parsed back, compared, and looked up in a graph (bind under the constructed label, kid under the parsed one). Distinct non-trivial = distinct judged (not unspecified) texts. Sub-campaign value-sweeps (bounded-exhaustive): EVERY Unicode scalar value c in seven texts (c, ca, ac, c x 8, a + c x 8, αc, c1) through the classifier oracle and as Greek(c) / Str value through print, parse and graph lookup; EVERY alpha index 0..=100000 (thorough 2000000).",
             assumptions: &["the text grammar as read from the property statement and src/label.rs documentation (DESIGN §6 C17 lists the unspecified classes)"],
-            subs: vec![Sub { id: "labels-enum", quick: 1, thorough: 1 }, Sub { id: "labels", quick: 8_000, thorough: 320_000 }],
+            subs: vec![Sub { id: "labels-enum", quick: 1, thorough: 1 }, Sub { id: "labels", quick: 8_000, thorough: 320_000 }, Sub { id: "value-sweeps", quick: 8, thorough: 16 }],
         },
         "C18" => Meta {
             level: "exploration",
-            rule: "graphs as C13 (digraph builder and histories with collections, never-added slots, dangling edges, data of all lengths incl. empty, labels that need no escaping, capacities 2..256). Oracle: to_xml() parsed with sxd-document and to_dot() parsed with a line grammar of the fixed format: node list = keys() in ascending order (none for absent ids); per node the edge set (label, target) = the model's edges; data = the model's bytes for exactly the vertices that have data. Metamorphic: for graphs without dangling edges a second graph with the same present vertices, edges and data is built differently (other capacity, reversed add/bind/label order, junk created and collected first, other read status) and must print byte-identical XML and DOT; one graph in 16 is wide (a vertex with 12..16 edges under labels from families equal modulo 128/256/case). Sub-campaign datum-length-sweep (bounded-exhaustive): EVERY datum length 0..=9000 (thorough: 0..=40000) and ±24 around 64 KiB, 128 KiB, 256 KiB, 1 MiB on a two-vertex graph, both exports parsed back. Non-trivial: an absent id below the largest present id, a vertex with >=2 edges, and a datum.",
+            rule: "graphs as C13 (digraph builder and histories with collections, never-added slots, dangling edges, data of all lengths incl. empty, labels that need no escaping, capacities 2..256). Oracle: to_xml() parsed with sxd-document and to_dot() parsed with a line grammar of the fixed format: node list = keys() in ascending order (none for absent ids); per node the edge set (label, target) = the model's edges; data = the model's bytes for exactly the vertices that have data. Metamorphic: for graphs without dangling edges a second graph with the same present vertices, edges and data is built differently (other capacity, reversed add/bind/label order, junk created and collected first, other read status) and must print byte-identical XML and DOT; one graph in 16 is wide (a vertex with 12..16 edges under labels from families equal modulo 128/256/case). Sub-campaign datum-length-sweep (bounded-exhaustive): EVERY datum length 0..=9000 (thorough: 0..=40000) and ±24 around 64 KiB, 128 KiB, 256 KiB, 1 MiB on a two-vertex graph, both exports parsed back. Non-trivial: an absent id below the largest present id, a vertex with >=2 edges, and a datum. Sub-campaign dimension-sweeps (bounded-exhaustive): one scalar dimension at a time is swept completely on a fixed small scenario and judged by the same oracle: vertex capacity 1..=300 and around 512..65536 (thorough: ..1100), vertex id 0..=1100 (thorough 4200) in a 4201-slot store, alpha index 0..=300 and +-1 around every power of two and ten (thorough: ..70000), every byte value at every offset 0..11 of a datum, datum length 0..=2100 (thorough 9000), groups x members 0..=14 x 2..=16, number of edges 0..=N for N in {1,2,3,4,8,15,16,17,32}, the label character (every scalar value up to U+02FF, then every 997th / 61st).",
             assumptions: &["reference model for vertices/edges/data", "DOT line grammar as documented in src/dot.rs"],
-            subs: vec![Sub { id: "digraph", quick: 40_000, thorough: 2_400_000 }, Sub { id: "datum-length-sweep", quick: 8, thorough: 16 }],
+            subs: vec![Sub { id: "digraph", quick: 40_000, thorough: 2_400_000 }, Sub { id: "datum-length-sweep", quick: 8, thorough: 16 }, Sub { id: "dimension-sweeps", quick: 8, thorough: 16 }],
         },
         "C20" => Meta {
             level: "exploration",
-            rule: "graphs as C13; for EVERY present start vertex inspect(v) is parsed by indentation into (source, label, target, seen-mark) records: for every vertex reachable from v through present vertices the records with that source must equal its edges exactly once each (what is printed beneath an edge to a collected vertex is not judged); v_print(v) must show Δ exactly when the vertex has data and list exactly its labels; Debug and Display must be equal and contain one block per present vertex (none for absent ids) with exactly its edges and its data bytes. Termination as C13. Distinct non-trivial = distinct (graph, start) whose reachable part has a cycle or a shared target.",
+            rule: "graphs as C13; for EVERY present start vertex inspect(v) is parsed by indentation into (source, label, target, seen-mark) records: for every vertex reachable from v through present vertices the records with that source must equal its edges exactly once each (what is printed beneath an edge to a collected vertex is not judged); v_print(v) must show Δ exactly when the vertex has data and list exactly its labels; Debug and Display must be equal and contain one block per present vertex (none for absent ids) with exactly its edges and its data bytes. Termination as C13. Distinct non-trivial = distinct (graph, start) whose reachable part has a cycle or a shared target. Sub-campaign dimension-sweeps (bounded-exhaustive): one scalar dimension at a time is swept completely on a fixed small scenario and judged by the same oracle: vertex capacity 1..=300 and around 512..65536 (thorough: ..1100), vertex id 0..=1100 (thorough 4200) in a 4201-slot store, alpha index 0..=300 and +-1 around every power of two and ten (thorough: ..70000), every byte value at every offset 0..11 of a datum, datum length 0..=2100 (thorough 9000), groups x members 0..=14 x 2..=16, number of edges 0..=N for N in {1,2,3,4,8,15,16,17,32}, the label character (every scalar value up to U+02FF, then every 997th / 61st).",
             assumptions: &["reference model for vertices/edges/data", "output formats as produced by src/inspect.rs and src/debug.rs (parsers in harness/src/props/digraph.rs)"],
-            subs: vec![Sub { id: "digraph", quick: 40_000, thorough: 2_400_000 }],
+            subs: vec![Sub { id: "digraph", quick: 40_000, thorough: 2_400_000 }, Sub { id: "dimension-sweeps", quick: 8, thorough: 16 }],
         },
         "C19" => Meta {
             level: "exploration",
-            rule: "two configurations (N from 1..=16, 17, 32; capacity from {2..24,64,256,700}) are drawn; a history (<=60 generated calls incl. next_id, merge of trees, slice, slice_some, clone, clone_from into another store, save+load, + slice_some from every eligible vertex under three predicates + drain epilogue) is generated inside the limits of the smaller one; its complete observation trace after every call (results, keys, kids() in enumeration order, v_print, inspect text of every vertex, Debug text; next_id results, ids created by merge, keys/kids of slices) must be identical (a) on two runs in one process (every HashSet/HashMap gets fresh random keys), (b) for a sample of cases in another process, (c) under the other configuration. Non-trivial: the history contains a merge, slice or next_id, some vertex has >=2 labels, and the two configurations differ.",
+            rule: "two configurations (N from 1..=16, 17, 32; capacity from {2..24,64,256,700}) are drawn; a history (<=60 generated calls incl. next_id, merge of trees, slice, slice_some, clone, clone_from into another store, save+load, + slice_some from every eligible vertex under three predicates + drain epilogue) is generated inside the limits of the smaller one; its complete observation trace after every call (results, keys, kids() in enumeration order, v_print, inspect text of every vertex, Debug text; next_id results, ids created by merge, keys/kids of slices) must be identical (a) on two runs in one process (every HashSet/HashMap gets fresh random keys), (b) for a sample of cases in another process, (c) under the other configuration. Non-trivial: the history contains a merge, slice or next_id, some vertex has >=2 labels, and the two configurations differ. Sub-campaign dimension-sweeps (bounded-exhaustive): one scalar dimension at a time is swept completely on a fixed small scenario and judged by the same oracle: vertex capacity 1..=300 and around 512..65536 (thorough: ..1100), vertex id 0..=1100 (thorough 4200) in a 4201-slot store, alpha index 0..=300 and +-1 around every power of two and ten (thorough: ..70000), every byte value at every offset 0..11 of a datum, datum length 0..=2100 (thorough 9000), groups x members 0..=14 x 2..=16, number of edges 0..=N for N in {1,2,3,4,8,15,16,17,32}, the label character (every scalar value up to U+02FF, then every 997th / 61st).",
             assumptions: &["differential: the implementation is compared with itself", "image sizes returned by save() are masked (they depend on the capacity by nature)", "exports (to_xml/to_dot) are left to C18"],
-            subs: vec![Sub { id: "multi-config", quick: 24_000, thorough: 1_200_000 }],
+            subs: vec![Sub { id: "multi-config", quick: 24_000, thorough: 1_200_000 }, Sub { id: "dimension-sweeps", quick: 8, thorough: 16 }],
         },
         _ => return None,
     })
@@ -214,6 +216,20 @@ pub fn run_sub(
             r.exhaustive = r.found.is_empty();
             r
         }
+        ("C01" | "C02" | "C03" | "C04" | "C05" | "C07" | "C08" | "C09" | "C10" | "C13" | "C14" | "C18" | "C19" | "C20", "dimension-sweeps") => {
+            let of = if tier == Tier::Quick { 8 } else { 16 };
+            let e = SweepEngine { prop: leak(prop), shard: worker, of, thorough: tier == Tier::Thorough };
+            let mut r = campaign(&e, tier, seed, cases, known, inflight, 0);
+            r.exhaustive = r.found.is_empty();
+            r
+        }
+        ("C15" | "C16" | "C17", "value-sweeps") => {
+            let of = if tier == Tier::Quick { 8 } else { 16 };
+            let e = ValSweep { prop: leak(prop), shard: worker, of, thorough: tier == Tier::Thorough, tolerate: known.open.keys().cloned().collect() };
+            let mut r = campaign(&e, tier, seed, cases, known, inflight, 0);
+            r.exhaustive = r.found.is_empty();
+            r
+        }
         ("C13" | "C18" | "C20", "digraph") => campaign(&DiEngine { prop: leak(prop) }, tier, seed, cases, known, inflight, 1200),
         ("C14", "scriptgen") => campaign(&ScriptEngine, tier, seed, cases, known, inflight, 800),
         ("C15", "hexenum") => campaign(&HexEngine, tier, seed, cases, known, inflight, 50),
@@ -246,6 +262,8 @@ pub fn replay(prop: &str, engine: &str, payload: &Value) -> Result<Option<Failur
         ("C11", "treegen" | "treegen-enum") => Ok(TreeEngine { extras: false }.replay(payload)),
         ("C12", "treegen") => Ok(TreeEngine { extras: true }.replay(payload)),
         ("C08" | "C18", "datum-length-sweep") => Ok(LengthSweep { prop: leak(prop), shard: 0, of: 1, max: 0 }.replay(payload)),
+        ("C15" | "C16" | "C17", "value-sweeps") => Ok(ValSweep { prop: leak(prop), shard: 0, of: 1, thorough: false, tolerate: Default::default() }.replay(payload)),
+        (_, "dimension-sweeps") => Ok(SweepEngine { prop: leak(prop), shard: 0, of: 1, thorough: false }.replay(payload)),
         ("C13" | "C18" | "C20", "digraph") => Ok(DiEngine { prop: leak(prop) }.replay(payload)),
         ("C14", "scriptgen") => Ok(ScriptEngine.replay(payload)),
         ("C15", "hexenum") => Ok(HexEngine.replay(payload)),
